@@ -157,10 +157,7 @@ Definition load_records (sensors : list (string * string)) (k : rkind) (raw : op
   : option (list row) :=
   match raw with
   | None => None
-  | Some rows =>
-      if (match k with RGnss => negb (existsb (fun s => eqb (snd s) "gnss") sensors) | _ => false end)
-      then None          (* "no declared GNSS sensors: all GNSS data will be ignored" *)
-      else Some (live (rkey k) (List.filter (fun r => memb (rsensor r, sensor_kind_of k) sensors) rows))
+  | Some rows => Some (live (rkey k) (List.filter (fun r => memb (rsensor r, sensor_kind_of k) sensors) rows))
   end.
 
 Definition load_feat (images : list string) (raw : option ftable) : option ftable :=
